@@ -7,4 +7,6 @@ const (
 	zzOnly         = ""
 	zzLoopBound    = 8
 	zzLoopBoundGen = 3
+	zzMaxTemplate  = 5
+	zzMaxCallArgs  = 3
 )
